@@ -94,6 +94,61 @@ fn panic_kind(msg: &str) -> &'static str {
     }
 }
 
+/// ascending table of the values around every power of two below 2^bits:
+/// 0 1 2 3 4 5, then 2^k-1 2^k 2^k+1 for k = 3 .. bits-1, then 2^bits-2, 2^bits-1 (ascending by construction)
+fn pow2_table(bits: u32) -> Vec<u128> {
+    let mut v: Vec<u128> = vec![0, 1, 2, 3, 4, 5];
+    for k in 3..bits {
+        let p = 1u128 << k;
+        v.extend([p - 1, p, p + 1]);
+    }
+    let max = if bits == 128 { u128::MAX } else { (1u128 << bits) - 1 };
+    v.extend([max - 1, max]);
+    v
+}
+/// signed counterpart for `bits`-bit two's complement: MIN, -(2^k+1) .. -1, 0, 1 .. MAX (ascending by construction)
+fn pow2_table_signed(bits: u32) -> Vec<i128> {
+    let pos = pow2_table(bits - 1);
+    let mut v: Vec<i128> = vec![-(1i128 << (bits - 1))];
+    v.extend(pos.iter().rev().filter(|&&x| x != 0).map(|&x| -(x as i128)));
+    v.extend(pos.iter().map(|&x| x as i128));
+    v
+}
+/// monotone pick from an ascending table
+fn pick<T: Copy>(t: &[T], x: u64) -> T {
+    t[((x as u128 * t.len() as u128) >> 64) as usize]
+}
+/// "cap<B>": values below 2^B with the maximum 2^B - 1 present; "capp<B>": the maximum is 2^B (one bit more):
+/// the two sides of every "how many bits does the largest key need" computation
+fn cap_value(dom: &str, x: u64) -> u64 {
+    let plus = dom.starts_with("capp");
+    let b: u32 = dom.trim_start_matches("capp").trim_start_matches("cap").parse().unwrap_or(8);
+    let top = 1u64 << b;
+    if plus {
+        pick(&[0, 1, top - 1, top], x)
+    } else {
+        pick(&[0, 1, top >> 1, top - 2, top - 1], x)
+    }
+}
+fn leak(s: String) -> &'static str {
+    Box::leak(s.into_boxed_str())
+}
+/// cases on both sides of the pass-count switches of an LSD sort with `rb`-bit digits on `width`-bit keys
+fn cap_cases(rb: usize, width: usize) -> Vec<Case> {
+    let mut bs: Vec<usize> = vec![rb, 2 * rb, (width - 1) / rb * rb];
+    bs.retain(|&b| b >= 1 && b < width);
+    bs.dedup();
+    let mut v = vec![];
+    for b in bs {
+        v.push(Case { shape: "rand", dom: leak(format!("cap{b}")), n: 24 });
+        v.push(Case { shape: "rand", dom: leak(format!("capp{b}")), n: 24 });
+    }
+    v
+}
+fn be16(x: u128) -> Value {
+    Value::Array(x.to_be_bytes().iter().map(|&b| json!(b)).collect())
+}
+
 impl Key for u32 {
     fn wide(&self) -> bool {
         *self >= 0x8000_0000
@@ -121,6 +176,12 @@ impl Key for u32 {
             "mid" => (x >> 47) as u32,
             // values differing only in the highest byte, all >= 2^31
             "high" => 0x8000_0000 | (((x >> 57) as u32) << 24) | 0x0034_5678,
+            // around every power of two: every digit boundary of every radix width
+            "pow2" => pick(&pow2_table(32), x) as u32,
+            // the largest value the counting sort of RadixSort accepts (2^16 - 1) and the first it does not
+            "edge16" => pick(&[0u32, 1, 65534, 65535], x),
+            "edge16p" => pick(&[0u32, 65535, 65536, 65537], x),
+            d if d.starts_with("cap") => cap_value(d, x) as u32,
             _ => (x >> 32) as u32,
         }
     }
@@ -128,7 +189,7 @@ impl Key for u32 {
         *self as u64
     }
     fn domains() -> &'static [&'static str] {
-        &["low", "mid", "high", "full"]
+        &["low", "mid", "high", "full", "pow2", "edge16", "edge16p"]
     }
 }
 
@@ -153,6 +214,8 @@ impl Key for u64 {
             "high" => (1u64 << 63) | ((x >> 57) << 56) | 0x00AB_CDEF_0123_4567,
             // differ only in bits 32..48 (the high word), low word constant
             "hi32" => ((x >> 48) << 32) | 0x89AB_CDEF,
+            "pow2" => pick(&pow2_table(64), x) as u64,
+            d if d.starts_with("cap") => cap_value(d, x),
             _ => x,
         }
     }
@@ -160,7 +223,7 @@ impl Key for u64 {
         *self
     }
     fn domains() -> &'static [&'static str] {
-        &["low", "mid", "high", "hi32", "full"]
+        &["low", "mid", "high", "hi32", "full", "pow2"]
     }
 }
 
@@ -182,6 +245,8 @@ impl Key for i32 {
             "low" => (x >> 61) as i32 - 4,
             "mid" => (x >> 47) as i32 - 65536,
             "high" => ((((x >> 57) as u32) << 25) ^ 0x8000_0000) as i32 | 0x0012_3456,
+            // i32::MIN, -(2^k +- 1), -1, 0, 1, 2^k +- 1, i32::MAX
+            "pow2" => pick(&pow2_table_signed(32), x) as i32,
             _ => (((x >> 32) as u32) ^ 0x8000_0000) as i32,
         }
     }
@@ -189,7 +254,7 @@ impl Key for i32 {
         *self as u32 as u64
     }
     fn domains() -> &'static [&'static str] {
-        &["low", "mid", "high", "full"]
+        &["low", "mid", "high", "full", "pow2"]
     }
 }
 
@@ -245,6 +310,11 @@ impl Key for Vec<u8> {
             }
             // one byte repeated 0..15 times: every string a prefix of the next
             "lens" => v.resize((x >> 60) as usize, 97),
+            // a 70-byte common prefix: deeper than the depth limit (64) of the MSD recursion
+            "deep" => {
+                v.resize(70, 100);
+                lex_unrank(((x as u128 * lex_count(3) as u128) >> 64) as u64, 3, &mut v);
+            }
             _ => lex_unrank(((x as u128 * lex_count(5) as u128) >> 64) as u64, 5, &mut v),
         }
         v
@@ -253,7 +323,7 @@ impl Key for Vec<u8> {
         self.iter().take(8).enumerate().fold(0u64, |k, (i, &b)| k | (b as u64) << (8 * (7 - i)))
     }
     fn domains() -> &'static [&'static str] {
-        &["low", "prefix", "high", "lens", "full"]
+        &["low", "prefix", "high", "lens", "full", "deep"]
     }
 }
 
@@ -285,6 +355,163 @@ impl<const N: usize> Key for Fat<N> {
     }
     fn domains() -> &'static [&'static str] {
         &["low", "mid", "high", "full"]
+    }
+}
+
+macro_rules! small_uint_key {
+    ($t:ty, $bits:expr) => {
+        impl Key for $t {
+            fn wide(&self) -> bool {
+                false
+            }
+            fn enc(&self, _wide: bool) -> Value {
+                json!(*self)
+            }
+            fn kt(_wide: bool) -> &'static str {
+                "int"
+            }
+            fn mix(&self) -> u64 {
+                mix64(*self as u64 ^ ($bits as u64) << 56)
+            }
+            fn from_rank(dom: &str, x: u64) -> $t {
+                match dom {
+                    "low" => (x >> 61) as $t,
+                    "pow2" => pick(&pow2_table($bits), x) as $t,
+                    _ => (x >> (64 - $bits)) as $t,
+                }
+            }
+            fn emb64(&self) -> u64 {
+                *self as u64
+            }
+            fn domains() -> &'static [&'static str] {
+                &["low", "full", "pow2"]
+            }
+        }
+    };
+}
+small_uint_key!(u8, 8);
+small_uint_key!(u16, 16);
+
+/// i64 is logged in offset binary (x XOR 2^63 as four limbs): an order-preserving bijection onto u64
+impl Key for i64 {
+    fn wide(&self) -> bool {
+        true
+    }
+    fn enc(&self, _wide: bool) -> Value {
+        limbs((*self as u64) ^ (1u64 << 63))
+    }
+    fn kt(_wide: bool) -> &'static str {
+        "limbs"
+    }
+    fn mix(&self) -> u64 {
+        mix64(*self as u64 ^ 0x1640)
+    }
+    fn from_rank(dom: &str, x: u64) -> i64 {
+        match dom {
+            "low" => (x >> 61) as i64 - 4,
+            "mid" => (x >> 44) as i64 - (1 << 19),
+            "pow2" => pick(&pow2_table_signed(64), x) as i64,
+            _ => (x ^ (1u64 << 63)) as i64,
+        }
+    }
+    fn emb64(&self) -> u64 {
+        *self as u64
+    }
+    fn domains() -> &'static [&'static str] {
+        &["low", "mid", "full", "pow2"]
+    }
+}
+
+/// u128 and (u64, u64) are logged as 16 big-endian bytes (kt "bytes": for equal lengths the
+/// lexicographic byte order is the numeric / tuple order)
+impl Key for u128 {
+    fn wide(&self) -> bool {
+        false
+    }
+    fn enc(&self, _wide: bool) -> Value {
+        be16(*self)
+    }
+    fn kt(_wide: bool) -> &'static str {
+        "bytes"
+    }
+    fn mix(&self) -> u64 {
+        mix64((*self as u64) ^ mix64((*self >> 64) as u64))
+    }
+    fn from_rank(dom: &str, x: u64) -> u128 {
+        match dom {
+            "low" => (x >> 61) as u128,
+            // differ only in the high 64 bits
+            "hi64" => ((x >> 52) as u128) << 64 | 0x0123_4567_89AB_CDEF,
+            "pow2" => pick(&pow2_table(128), x),
+            _ => (x as u128) << 64 | mix64(x) as u128,
+        }
+    }
+    fn emb64(&self) -> u64 {
+        (*self >> 64) as u64
+    }
+    fn domains() -> &'static [&'static str] {
+        &["low", "hi64", "full", "pow2"]
+    }
+}
+impl Key for (u64, u64) {
+    fn wide(&self) -> bool {
+        false
+    }
+    fn enc(&self, _wide: bool) -> Value {
+        be16((self.0 as u128) << 64 | self.1 as u128)
+    }
+    fn kt(_wide: bool) -> &'static str {
+        "bytes"
+    }
+    fn mix(&self) -> u64 {
+        mix64(self.1 ^ mix64(self.0) ^ 0x7075)
+    }
+    fn from_rank(dom: &str, x: u64) -> (u64, u64) {
+        match dom {
+            "low" => (x >> 62, (x >> 60) & 3),
+            // differ only in the first / only in the second component
+            "first" => (x >> 50, 7),
+            "second" => (5, x >> 50),
+            _ => (x >> 32, (x & 0xffff_ffff) << 20),
+        }
+    }
+    fn emb64(&self) -> u64 {
+        self.0
+    }
+    fn domains() -> &'static [&'static str] {
+        &["low", "first", "second", "full"]
+    }
+}
+/// String: the byte-string domains with the alphabet mapped monotonically into printable ASCII
+impl Key for String {
+    fn wide(&self) -> bool {
+        false
+    }
+    fn enc(&self, _wide: bool) -> Value {
+        bytes_json(self.as_bytes())
+    }
+    fn kt(_wide: bool) -> &'static str {
+        "bytes"
+    }
+    fn mix(&self) -> u64 {
+        self.as_bytes().to_vec().mix()
+    }
+    fn from_rank(dom: &str, x: u64) -> String {
+        let b: Vec<u8> = <Vec<u8> as Key>::from_rank(dom, x);
+        b.into_iter()
+            .map(|c| match c {
+                0 => '!',
+                1 => '0',
+                255 => '~',
+                c => c as char,
+            })
+            .collect()
+    }
+    fn emb64(&self) -> u64 {
+        self.as_bytes().to_vec().emb64()
+    }
+    fn domains() -> &'static [&'static str] {
+        &["low", "prefix", "lens", "full", "deep"]
     }
 }
 
@@ -396,6 +623,12 @@ fn ranks(shape: &str, n: usize, rng: &mut Rng) -> Vec<u64> {
             }
             v
         }
+        // the first 1000 elements ascending (what a sortedness sample sees), the rest random
+        "headsorted" => {
+            let h = n.min(1000);
+            let st = u64::MAX / h.max(1) as u64;
+            (0..n).map(|i| if i < h { i as u64 * st } else { rng.next() }).collect()
+        }
         _ => (0..n).map(|_| rng.next()).collect(),
     }
 }
@@ -502,7 +735,7 @@ impl Cx {
 
 // ------------------------------------------------------------------ cases
 
-const SMALL_LENS: &[usize] = &[0, 1, 2, 3, 5, 8, 15, 16, 17, 31, 32, 33, 63, 64];
+const SMALL_LENS: &[usize] = &[0, 1, 2, 3, 4, 5, 7, 8, 9, 15, 16, 17, 24, 25, 31, 32, 33, 63, 64];
 const SMALL_MAX: usize = 64;
 
 #[derive(Clone)]
@@ -520,7 +753,7 @@ impl Case {
 /// the small-regime cases of the subject number `si`: every length of `lens`, with `per`
 /// (shape, domain) combinations per length chosen by rotation over subjects and lengths
 fn small_cases<T: Key>(cx: &Cx, si: usize, lens: &[usize]) -> Vec<Case> {
-    let per = if cx.thorough { 8 } else { 2 };
+    let per = if cx.thorough { 8 } else { 3 };
     let doms = T::domains();
     let combos: Vec<(&'static str, &'static str)> =
         SHAPES.iter().flat_map(|s| doms.iter().map(move |d| (*s, *d))).collect();
@@ -698,6 +931,20 @@ fn merge_inputs<T: Key>(cx: &Cx, si: usize, strict: bool) -> Vec<(String, Vec<Ve
         v.push(("all_equal".into(), (0..4).map(|i| gen::<T>("equal", doms[0], 3 + i, &mut cx.rng("merge/eq"))).collect()));
     }
     v.push(("single".into(), vec![one(doms[(si + 1) % doms.len()], 17, &mut rng)]));
+    // one ascending sequence dealt out to k runs: block-wise (disjoint, ascending or descending run order)
+    // and round-robin (perfectly interleaved); k = 2, 3, 5 and beyond the initial capacity (64) of the loser tree
+    for (k, n) in [(2usize, 24usize), (3, 30), (5, 35), (17, 34), (65, 130), (70, 75)] {
+        let dom = doms[(si + k) % doms.len()];
+        let all = one(dom, n, &mut rng);
+        let per = (all.len() + k - 1) / k.max(1);
+        let blocks: Vec<Vec<T>> = (0..k).map(|i| all.iter().skip(i * per).take(per).cloned().collect()).collect();
+        let mut rev = blocks.clone();
+        rev.reverse();
+        let rr: Vec<Vec<T>> = (0..k).map(|i| all.iter().skip(i).step_by(k).cloned().collect()).collect();
+        v.push((format!("disjoint{k}/{dom}"), blocks));
+        v.push((format!("disjoint_rev{k}/{dom}"), rev));
+        v.push((format!("interleaved{k}/{dom}"), rr));
+    }
     v
 }
 
@@ -726,7 +973,8 @@ fn setop_inputs<T: Key>(cx: &Cx) -> Vec<(String, Vec<T>, Vec<T>)> {
     let doms = T::domains();
     let mut v = vec![];
     let sizes: &[(usize, usize)] =
-        &[(0, 0), (0, 5), (5, 0), (1, 1), (3, 3), (8, 8), (1, 40), (2, 64), (40, 1), (64, 2), (20, 33), (64, 64)];
+        &[(0, 0), (0, 5), (5, 0), (1, 0), (1, 1), (1, 2), (2, 1), (3, 3), (8, 8), (1, 32), (1, 33), (1, 40), (2, 64), (2, 65), (40, 1),
+          (33, 1), (64, 2), (65, 2), (20, 33), (64, 64)];
     let reps = if cx.thorough { 3 } else { 1 };
     for (i, &(na, nb)) in sizes.iter().enumerate() {
         for rep in 0..reps {
@@ -741,6 +989,21 @@ fn setop_inputs<T: Key>(cx: &Cx) -> Vec<(String, Vec<T>, Vec<T>)> {
                 v.push((label, a, b));
             }
         }
+    }
+    // every combination of multiplicities 0 / 1 / 3 of an element in a and in b
+    for dom in doms.iter() {
+        let mut rng = cx.rng(&format!("setop/mult/{}/{dom}", std::any::type_name::<T>()));
+        let distinct = gen_strict::<T>(dom, 18, &mut rng);
+        let (mut a, mut b) = (vec![], vec![]);
+        for (i, x) in distinct.iter().enumerate() {
+            for _ in 0..[0usize, 1, 3][i % 3] {
+                a.push(x.clone());
+            }
+            for _ in 0..[0usize, 1, 3][(i / 3) % 3] {
+                b.push(x.clone());
+            }
+        }
+        v.push((format!("mult/{dom}"), a, b));
     }
     v
 }
@@ -775,6 +1038,10 @@ fn fam_radix(cx: &mut Cx) {
             }
         }
     }
+    // radix widths that do not divide the key width (last digit partial), and the extremes
+    for rb in [1usize, 3, 5, 7, 13] {
+        variants.push((rb, 0, None));
+    }
     for (rb, cthr, pt) in variants {
         si += 1;
         let name = format!("radix:u32/c{cthr}@rb{rb}/{}", pt_name(pt));
@@ -792,6 +1059,13 @@ fn fam_radix(cx: &mut Cx) {
             cases.extend(big_cases::<u32>(si, lens, &["rand", "reversed", "nearly", "runs", "equal"], u32::domains()));
         } else {
             cases.extend(big_cases::<u32>(si, &[100, 1000], &["rand", "reversed"], u32::domains()));
+        }
+        cases.extend(cap_cases(rb, 32));
+        if cthr > 0 {
+            // both sides of the counting sort's value bound (max < 2^16) on both sides of its length bound
+            for (dom, n) in [("edge16", 256usize), ("edge16p", 256), ("edge16", 257), ("edge16p", 255), ("edge16", 40), ("edge16p", 40)] {
+                cases.push(Case { shape: "rand", dom, n });
+            }
         }
         for c in cases {
             sort_case::<u32>(cx, &c, false, &mut |v| {
@@ -813,8 +1087,11 @@ fn fam_radix(cx: &mut Cx) {
         }
     }
     // ---- sort_u64
-    for rb in [4usize, 8, 11, 16] {
+    for rb in [4usize, 8, 11, 16, 1, 3, 5, 7, 13] {
         for pt in [None, Some(8), Some(10_000)] {
+            if ![4, 8, 11, 16].contains(&rb) && pt.is_some() {
+                continue;
+            }
             si += 1;
             let name = format!("radix:u64@rb{rb}/{}", pt_name(pt));
             let cfg = json!({"elem": "u64", "radix_bits": rb, "cthr": 0, "parallel": pt.is_some(), "pthr": pt.unwrap_or(0)});
@@ -826,12 +1103,13 @@ fn fam_radix(cx: &mut Cx) {
                 let lens: &[usize] = if cx.thorough {
                     &[257, 9_999, 10_000, 19_999, 20_000, 20_001, 100_000, 300_000]
                 } else {
-                    &[257, 9_999, 19_999, 20_000, 60_000]
+                    &[257, 9_999, 10_000, 19_999, 20_000, 20_001, 60_000]
                 };
                 cases.extend(big_cases::<u64>(si, lens, &["rand", "reversed", "nearly", "runs"], u64::domains()));
             } else {
                 cases.extend(big_cases::<u64>(si, &[100, 1000], &["rand", "reversed"], u64::domains()));
             }
+            cases.extend(cap_cases(rb, 64));
             for c in cases {
                 sort_case::<u64>(cx, &c, false, &mut |v| {
                     let mut s = RadixSort::with_config(radix_cfg(rb, 256, pt));
@@ -852,22 +1130,25 @@ fn fam_radix(cx: &mut Cx) {
     }
 }
 
+fn kv_run<K: Key + Copy + Into<u64>>(cx: &mut Cx, elem: &str, si: usize) {
+    if !cx.subject(&format!("kv:{elem}"), json!({"elem": elem, "stable_promised": false})) {
+        return;
+    }
+    // the keys are sorted by RadixSort::sort_u64 with the default configuration: both sides of its
+    // parallel switch (10 000) and of its chunking switch (20 000)
+    let big: &[usize] = if cx.thorough { &[257, 3000, 9_999, 10_000, 19_999, 20_000, 20_001, 100_000] } else { &[257, 9_999, 10_000, 19_999, 20_000, 20_001] };
+    let mut cases = small_cases::<K>(cx, si, SMALL_LENS);
+    cases.extend(big_cases::<K>(si, big, &["rand", "nearly", "reversed", "runs"], K::domains()));
+    for c in cases {
+        sort_kv_case::<K>(cx, &c, false, &mut |v| KeyValueRadixSort::<K, u32>::new().sort_by_key(v).map_err(err_str));
+    }
+}
+
 fn fam_kv(cx: &mut Cx) {
-    let big: &[usize] = if cx.thorough { &[257, 3000, 20_000] } else { &[257, 3000] };
-    if cx.subject("kv:u32", json!({"elem": "u32", "stable_promised": false})) {
-        let mut cases = small_cases::<u32>(cx, 1, SMALL_LENS);
-        cases.extend(big_cases::<u32>(1, big, &["rand", "nearly"], &["full", "mid"]));
-        for c in cases {
-            sort_kv_case::<u32>(cx, &c, false, &mut |v| KeyValueRadixSort::<u32, u32>::new().sort_by_key(v).map_err(err_str));
-        }
-    }
-    if cx.subject("kv:u64", json!({"elem": "u64", "stable_promised": false})) {
-        let mut cases = small_cases::<u64>(cx, 2, SMALL_LENS);
-        cases.extend(big_cases::<u64>(2, big, &["rand", "reversed"], &["full", "hi32"]));
-        for c in cases {
-            sort_kv_case::<u64>(cx, &c, false, &mut |v| KeyValueRadixSort::<u64, u32>::new().sort_by_key(v).map_err(err_str));
-        }
-    }
+    kv_run::<u32>(cx, "u32", 1);
+    kv_run::<u64>(cx, "u64", 2);
+    kv_run::<u8>(cx, "u8", 3);
+    kv_run::<u16>(cx, "u16", 4);
 }
 
 // ------------------------------------------------------------------ family: AdvancedRadixSort
@@ -971,16 +1252,34 @@ fn adv_int<T: Key + RadixSortable>(cx: &mut Cx, elem: &str, si0: usize) {
             let lens: &[usize] = if cx.thorough {
                 &[99, 100, 101, 999, 1000, 1001, 9_999, 10_000, 19_999, 20_000, 20_001, 100_000, 300_000]
             } else {
-                &[100, 101, 1001, 9_999, 19_999, 20_000, 60_000]
+                &[100, 101, 999, 1001, 9_999, 10_000, 19_999, 20_000, 20_001, 60_000]
             };
             cases.extend(big_cases::<T>(si, lens, &["rand", "nearly", "reversed", "runs", "sorted"], T::domains()));
+            // a sorted head (all the sortedness sample of 1000 elements sees) in front of random data
+            cases.push(Case { shape: "headsorted", dom: "full", n: 5000 });
+            cases.push(Case { shape: "rand", dom: "pow2", n: 3000 });
         } else {
             cases.extend(big_cases::<T>(si, &[100, 1000], &["rand", "reversed"], T::domains()));
+        }
+        if av.name.starts_with("lsd/") || av.name.starts_with("auto/") {
+            cases.extend(cap_cases(av.cfg.radix_bits, std::mem::size_of::<T>() * 8));
         }
         for c in cases {
             let cfg = av.cfg.clone();
             sort_case::<T>(cx, &c, false, &mut |v| {
                 let mut s = AdvancedRadixSort::<T>::with_config(cfg.clone()).map_err(err_str)?;
+                s.sort(v).map_err(err_str)
+            });
+        }
+    }
+    // the constructor sharing a caller-supplied memory pool
+    if cx.subject(&format!("adv:{elem}/with_memory_pool"), adv_cfg_json(elem, &AdvancedRadixSortConfig::default())) {
+        let mut cases = small_cases::<T>(cx, si0 + 201, SMALL_LENS);
+        cases.extend(big_cases::<T>(si0, &[101, 1001, 20_001], &["rand", "reversed", "nearly"], T::domains()));
+        for c in cases {
+            sort_case::<T>(cx, &c, false, &mut |v| {
+                let pool = zipora::memory::SecureMemoryPool::new(zipora::memory::SecurePoolConfig::small_secure()).map_err(err_str)?;
+                let mut s = AdvancedRadixSort::<T>::with_memory_pool(AdvancedRadixSortConfig::default(), pool);
                 s.sort(v).map_err(err_str)
             });
         }
@@ -1013,6 +1312,10 @@ fn adv_str(cx: &mut Cx) {
         ));
     }
     vars.push(("auto/default".into(), AdvancedRadixSortConfig::default()));
+    vars.push((
+        "lsd/par2".into(),
+        AdvancedRadixSortConfig { force_strategy: Some(SortingStrategy::LsdRadix), use_parallel: true, num_threads: 2, parallel_threshold: 8, ..base.clone() },
+    ));
     for (i, (name, cfg)) in vars.into_iter().enumerate() {
         if !cx.subject(&format!("adv:str@{name}"), adv_cfg_json("bytes", &cfg)) {
             continue;
@@ -1066,6 +1369,27 @@ fn co_run<T: Key>(cx: &mut Cx, name: &str, elem: &str, entry: &'static str, cfg:
     }
 }
 
+fn co_default_type<T: Key>(cx: &mut Cx, elem: &str, si: usize, d: &CacheObliviousConfig) {
+    let h = &d.cache_hierarchy;
+    let es = std::mem::size_of::<T>().max(1);
+    let n1 = h.l1_size / 8;
+    let mut pts: Vec<usize> = vec![65, (h.l1_size / es).min(n1), (h.l2_size / es).min(n1), n1];
+    pts.dedup();
+    let mut lens: Vec<usize> = vec![];
+    for p in pts {
+        for n in [p.saturating_sub(1), p, p + 1] {
+            if n > SMALL_MAX && !lens.contains(&n) && (cx.thorough || n >= p) {
+                lens.push(n);
+            }
+        }
+    }
+    lens.push(n1 + 700);
+    let doms = T::domains();
+    let mut cases = small_cases::<T>(cx, si, SMALL_LENS);
+    cases.extend(big_cases::<T>(si, &lens, &["rand", "reversed", "sorted", "nearly", "equal", "runs"], doms));
+    co_run::<T>(cx, &format!("co:default/{elem}"), elem, "sort", d.clone(), cases);
+}
+
 fn fam_co(cx: &mut Cx) {
     let d = CacheObliviousConfig::default();
     let l1n = d.cache_hierarchy.l1_size / 8;
@@ -1088,6 +1412,19 @@ fn fam_co(cx: &mut Cx) {
     let mut cases = small_cases::<Vec<u8>>(cx, 4, SMALL_LENS);
     cases.extend(big_cases::<Vec<u8>>(4, &[1025, 3000], &["rand", "reversed"], &["full", "prefix"]));
     co_run::<Vec<u8>>(cx, "co:default/bytes", "bytes", "sort", d.clone(), cases);
+    // every element size class at the detected hierarchy: on both sides of the L1 window (n * size_of::<T>() <= l1:
+    // insertion sort), of the L2 window (quicksort above 16 elements), of the cache-aware window (n * 8 <= l1;
+    // beyond it the funnel), and of the element-count switches 16/17, 32/33, 64/65
+    co_default_type::<u8>(cx, "u8", 40, &d);
+    co_default_type::<u16>(cx, "u16", 41, &d);
+    co_default_type::<u32>(cx, "u32", 42, &d);
+    co_default_type::<i64>(cx, "i64", 43, &d);
+    co_default_type::<u128>(cx, "u128", 44, &d);
+    co_default_type::<(u64, u64)>(cx, "pair_u64", 45, &d);
+    co_default_type::<String>(cx, "string", 46, &d);
+    co_default_type::<Vec<u8>>(cx, "bytes24", 47, &d);
+    co_default_type::<Fat<15>>(cx, "fat128", 48, &d);
+    co_default_type::<Fat<127>>(cx, "fat1024", 49, &d);
     // the Algorithm trait entry point (Vec<i32>)
     if cx.subject("co:default@execute", co_json("i32", 4, "execute", &d)) {
         for c in small_cases::<i32>(cx, 5, SMALL_LENS) {
@@ -1141,10 +1478,31 @@ fn rss_cfg(buf_bytes: usize, ways: usize, secure: bool) -> ReplaceSelectSortConf
     }
 }
 
+/// ReplaceSelectSort over another element type with a buffer of `buf` elements (a macro, not a generic
+/// function: the serde bounds of ReplaceSelectSort cannot be named without a direct dependency on serde)
+macro_rules! rss_type {
+    ($t:ty, $cx:expr, $elem:expr, $buf:expr, $si:expr) => {{
+        let cx: &mut Cx = $cx;
+        let lens: &[usize] = &[0, 1, 2, 3, 4, 5, 8, 9, 17, 33, 64];
+        let name = format!("rss:{}@buf{}", $elem, $buf);
+        if cx.subject(&name, json!({"elem": $elem, "buf_items": $buf, "merge_ways": 16, "cmp": "ord"})) {
+            let bytes = $buf * std::mem::size_of::<$t>();
+            for c in small_cases::<$t>(cx, $si, lens) {
+                sort_case::<$t>(cx, &c, false, &mut |v| {
+                    let mut s = ReplaceSelectSort::<$t>::new(rss_cfg(bytes, 16, false));
+                    let out = s.sort(v.clone()).map_err(err_str)?;
+                    *v = out;
+                    Ok(())
+                });
+            }
+        }
+    }};
+}
+
 fn fam_rss(cx: &mut Cx) {
     let _ = std::fs::create_dir_all(TMP_DIR);
     let ways = [2usize, 3, 4, 8, 16];
-    let lens: &[usize] = &[0, 1, 2, 3, 5, 8, 9, 16, 17, 33, 64];
+    let lens: &[usize] = &[0, 1, 2, 3, 4, 5, 6, 7, 8, 9, 16, 17, 33, 64];
     // buffers of 0..8 elements (0: a buffer smaller than one element)
     for buf in 0..=8usize {
         let w = ways[buf % ways.len()];
@@ -1197,6 +1555,12 @@ fn fam_rss(cx: &mut Cx) {
             sort_case::<u64>(cx, &c, false, &mut |v| v.external_sort_with_config(rss_cfg(32, 16, false)).map_err(err_str));
         }
     }
+    rss_type!(String, cx, "string", 3usize, 80);
+    rss_type!((u64, u64), cx, "pair_u64", 2usize, 81);
+    rss_type!(u8, cx, "u8", 5usize, 82);
+    rss_type!(i64, cx, "i64", 1usize, 83);
+    rss_type!(u128, cx, "u128", 4usize, 84);
+    rss_type!(u16, cx, "u16", 7usize, 85);
     if cx.subject("rss:u64/buf1024", json!({"elem": "u64", "buf_items": 1024, "merge_ways": 16, "cmp": "ord"})) {
         let lens: &[usize] = if cx.thorough { &[1023, 1024, 1025, 5000, 40_000] } else { &[1025, 12_000] };
         for c in big_cases::<u64>(0, lens, &["rand", "runs", "reversed"], u64::domains()) {
@@ -1249,6 +1613,11 @@ fn fam_mwm(cx: &mut Cx) {
     mwm_run::<Vec<u8>>(cx, "mwm:tournament/bytes", "bytes", "tournament", mwm_cfg(true, 1024), 5);
     mwm_run::<u64>(cx, "mwm:hierarchical/u64", "u64", "hierarchical", mwm_cfg(false, 2), 6);
     mwm_run::<u32>(cx, "mwm:hierarchical_tournament/u32", "u32", "hierarchical", mwm_cfg(true, 4), 7);
+    mwm_run::<String>(cx, "mwm:heap/string", "string", "heap", mwm_cfg(false, 1024), 9);
+    mwm_run::<(u64, u64)>(cx, "mwm:tournament/pair_u64", "pair_u64", "tournament", mwm_cfg(true, 1024), 10);
+    mwm_run::<i64>(cx, "mwm:heap/i64", "i64", "heap", mwm_cfg(false, 1024), 11);
+    mwm_run::<u128>(cx, "mwm:hierarchical/u128", "u128", "hierarchical", mwm_cfg(false, 3), 12);
+    mwm_run::<u8>(cx, "mwm:tournament/u8", "u8", "tournament", mwm_cfg(true, 1024), 13);
     if cx.subject("mwm:execute/i32", json!({"elem": "i32", "mode": "heap", "max_ways": 1024})) {
         for (label, runs) in merge_inputs::<i32>(cx, 8, false) {
             merge_runs_case::<i32>(cx, &label, runs, false, &mut |rs| {
@@ -1301,6 +1670,11 @@ fn fam_mops(cx: &mut Cx) {
     mops_run::<u64>(cx, "u64", 1);
     mops_run::<i32>(cx, "i32", 2);
     mops_run::<Vec<u8>>(cx, "bytes", 3);
+    mops_run::<String>(cx, "string", 4);
+    mops_run::<(u64, u64)>(cx, "pair_u64", 5);
+    mops_run::<u8>(cx, "u8", 6);
+    mops_run::<i64>(cx, "i64", 7);
+    mops_run::<u128>(cx, "u128", 8);
 }
 
 // ------------------------------------------------------------------ family: SIMD merge (i32)
@@ -1320,6 +1694,96 @@ fn fam_simd(cx: &mut Cx) {
         for (label, runs) in two_way_inputs::<i32>(cx, 10 + i) {
             let cfg = cfg.clone();
             merge_runs_case::<i32>(cx, &label, runs, false, &mut |rs| Ok(SimdComparator::with_config(cfg.clone()).merge_sorted_i32(&rs[0], &rs[1])));
+        }
+    }
+    // comparison kernels of the same module: element-wise compare, first minimum
+    let lens: &[usize] = &[0, 1, 2, 7, 8, 9, 15, 16, 17, 23, 24, 25, 33, 64];
+    let kcfgs: Vec<(&str, SimdConfig)> = vec![
+        ("default", d.clone()),
+        ("noavx2", SimdConfig { use_avx2: false, ..d.clone() }),
+        ("minvec1", SimdConfig { min_vector_size: 1, ..d.clone() }),
+        ("noprefetch", SimdConfig { prefetch_distance: 0, ..d.clone() }),
+    ];
+    let kernel_inputs = |cx: &Cx, tag: &str| -> Vec<(String, Vec<i32>, Vec<i32>)> {
+        let mut v = vec![];
+        for (li, &n) in lens.iter().enumerate() {
+            for (di, dom) in i32::domains().iter().enumerate() {
+                if !cx.thorough && (li + di) % 2 == 1 && n > 2 {
+                    continue;
+                }
+                let mut rng = cx.rng(&format!("kernel/{tag}/{n}/{dom}"));
+                let a = gen::<i32>("rand", dom, n, &mut rng);
+                // b: partly equal to a, partly different, sometimes of another length
+                let mut b = gen::<i32>("rand", dom, n, &mut rng);
+                for i in 0..n {
+                    if i % 3 == 0 {
+                        b[i] = a[i];
+                    }
+                }
+                v.push((format!("{n}/{dom}"), a, b));
+            }
+        }
+        v.push(("unequal".into(), vec![1, 2, 3], vec![1, 2]));
+        v.push(("unequal16".into(), (0..16).collect(), (0..17).collect()));
+        v
+    };
+    let ord_json = |o: &[std::cmp::Ordering]| Value::Array(o.iter().map(|x| json!(*x as i8)).collect());
+    for (name, cfg) in kcfgs.iter() {
+        if cx.subject(&format!("simd:compare_i32_slices@{name}"), json!({"elem": "i32", "avx2": cfg.use_avx2, "min_vec": cfg.min_vector_size})) {
+            for (label, a, b) in kernel_inputs(cx, "cmp") {
+                if !cx.begin(json!({"op": "crash", "in": "compare", "case": label, "len": a.len()})) {
+                    continue;
+                }
+                let c = cfg.clone();
+                match guard(|| SimdComparator::with_config(c).compare_i32_slices(&a, &b)) {
+                    Err(msg) => cx.ev(json!({"op": "panic", "in": "compare", "kind": panic_kind(&msg), "msg": msg, "case": label, "len": a.len()})),
+                    Ok(r) => {
+                        let ok = r.is_ok();
+                        cx.ev(json!({"op": "compare", "case": label, "a": a, "b": b, "ok": ok, "out": ord_json(&r.unwrap_or_default())}));
+                    }
+                }
+            }
+        }
+        if cx.subject(&format!("simd:find_min_i32@{name}"), json!({"elem": "i32", "avx2": cfg.use_avx2, "min_vec": cfg.min_vector_size})) {
+            for (label, a, _b) in kernel_inputs(cx, "min") {
+                if !cx.begin(json!({"op": "crash", "in": "argmin", "case": label, "len": a.len()})) {
+                    continue;
+                }
+                let c = cfg.clone();
+                match guard(|| SimdComparator::with_config(c).find_min_i32(&a)) {
+                    Err(msg) => cx.ev(json!({"op": "panic", "in": "argmin", "kind": panic_kind(&msg), "msg": msg, "case": label, "len": a.len()})),
+                    Ok(r) => cx.ev(json!({"op": "argmin", "case": label, "a": a, "r": match r { None => json!([]), Some((i, v)) => json!([[i, v]]) }})),
+                }
+            }
+        }
+    }
+    if cx.subject("simd:parallel_compare_i32", json!({"elem": "i32"})) {
+        for (label, a, b) in kernel_inputs(cx, "pcmp") {
+            if a.len() != b.len() {
+                continue;
+            }
+            if !cx.begin(json!({"op": "crash", "in": "compare", "case": label, "len": a.len()})) {
+                continue;
+            }
+            let pairs: Vec<(i32, i32)> = a.iter().cloned().zip(b.iter().cloned()).collect();
+            match guard(|| SimdOperations::parallel_compare_i32(&pairs)) {
+                Err(msg) => cx.ev(json!({"op": "panic", "in": "compare", "kind": panic_kind(&msg), "msg": msg, "case": label, "len": a.len()})),
+                Ok(r) => cx.ev(json!({"op": "compare", "case": label, "a": a, "b": b, "ok": true, "out": ord_json(&r)})),
+            }
+        }
+    }
+    if cx.subject("simd:find_multiple_mins", json!({"elem": "i32"})) {
+        let inputs = kernel_inputs(cx, "mmin");
+        if cx.begin(json!({"op": "crash", "in": "argmin", "case": "all", "len": inputs.len()})) {
+            let arrays: Vec<&[i32]> = inputs.iter().map(|(_, a, _)| a.as_slice()).collect();
+            match guard(|| SimdOperations::find_multiple_mins(&arrays)) {
+                Err(msg) => cx.ev(json!({"op": "panic", "in": "argmin", "kind": panic_kind(&msg), "msg": msg, "case": "all", "len": inputs.len()})),
+                Ok(rs) => {
+                    for ((label, a, _), r) in inputs.iter().zip(rs.into_iter()) {
+                        cx.ev(json!({"op": "argmin", "case": label, "a": a, "r": match r { None => json!([]), Some((i, v)) => json!([[i, v]]) }}));
+                    }
+                }
+            }
         }
     }
     if cx.subject("simd:merge_multiple_sorted", json!({"elem": "i32"})) {
@@ -1380,12 +1844,72 @@ fn lt_run<T: Key>(cx: &mut Cx, name: &str, elem: &str, entry: &'static str, cfg:
     }
 }
 
+/// loser tree driven by hand: initialize, then peek() before every pop(), and once more at the end
+fn lt_peekpop<T: Key>(cx: &mut Cx, name: &str, elem: &str, cfg: LoserTreeConfig, si: usize) {
+    let c = json!({"elem": elem, "entry": "peek+pop", "secure": cfg.use_secure_memory, "stable": cfg.stable_sort,
+        "cache": cfg.cache_optimized, "simd": cfg.use_simd, "cap": cfg.initial_capacity});
+    if !cx.subject(name, c) {
+        return;
+    }
+    for (label, runs) in merge_inputs::<T>(cx, si, false) {
+        let total: usize = runs.iter().map(|r| r.len()).sum();
+        let refs: Vec<&[T]> = runs.iter().map(|r| r.as_slice()).collect();
+        let w = any_wide(&refs);
+        let what = json!({"op": "crash", "in": "peekpop", "kt": T::kt(w), "len": total, "ways": runs.len(), "case": label});
+        if !cx.begin(what) {
+            continue;
+        }
+        let arg = runs.clone();
+        let cfgc = cfg.clone();
+        let r = guard(move || -> Result<(Vec<Option<T>>, Option<T>, Vec<T>), String> {
+            let mut tree = EnhancedLoserTree::<T>::new(cfgc);
+            for r in arg {
+                tree.add_way(r.into_iter()).map_err(err_str)?;
+            }
+            tree.initialize().map_err(err_str)?;
+            let (mut peeks, mut out) = (vec![], vec![]);
+            while !tree.is_empty() {
+                let pk = tree.peek().cloned();
+                if let Some(x) = tree.pop().map_err(err_str)? {
+                    peeks.push(pk);
+                    out.push(x);
+                }
+            }
+            let last = tree.peek().cloned();
+            Ok((peeks, last, out))
+        });
+        match r {
+            Err(msg) => cx.ev(json!({"op": "panic", "in": "peekpop", "kind": panic_kind(&msg), "msg": msg, "kt": T::kt(w), "len": total,
+                "ways": runs.len(), "case": label})),
+            Ok(r) => {
+                let ok = r.is_ok();
+                let (peeks, last, out) = r.unwrap_or((vec![], None, vec![]));
+                let o = |x: &Option<T>| match x {
+                    None => json!([]),
+                    Some(v) => json!([v.enc(w)]),
+                };
+                cx.ev(json!({"op": "peekpop", "kt": T::kt(w), "ord": "asc", "ok": ok, "ways": runs.len(), "case": label,
+                    "runs": runs_json(&runs, w), "peeks": Value::Array(peeks.iter().map(o).collect()), "last_peek": o(&last),
+                    "out": seq_json(&out, w)}));
+            }
+        }
+    }
+}
+
 fn fam_lt(cx: &mut Cx) {
+    lt_peekpop::<i32>(cx, "lt:plain/peekpop/i32", "i32", lt_cfg(false, true, true, true, 64), 20);
+    lt_peekpop::<u64>(cx, "lt:default/peekpop/u64", "u64", LoserTreeConfig::default(), 21);
+    lt_peekpop::<String>(cx, "lt:unstable/peekpop/string", "string", lt_cfg(false, false, false, false, 3), 22);
     lt_run::<u64>(cx, "lt:default/merge_to_vec/u64", "u64", "merge_to_vec", LoserTreeConfig::default(), 1);
     lt_run::<i32>(cx, "lt:plain/merge_all/i32", "i32", "merge_all", lt_cfg(false, true, true, true, 64), 2);
     lt_run::<u64>(cx, "lt:unstable/pop/u64", "u64", "pop", lt_cfg(false, false, true, true, 0), 3);
     lt_run::<Vec<u8>>(cx, "lt:nocache_nosimd/iter/bytes", "bytes", "iter", lt_cfg(false, true, false, false, 1), 4);
     lt_run::<u32>(cx, "lt:plain/merge_to_vec/u32", "u32", "merge_to_vec", lt_cfg(false, true, true, false, 4), 5);
+    lt_run::<String>(cx, "lt:plain/pop/string", "string", "pop", lt_cfg(false, true, true, true, 64), 8);
+    lt_run::<(u64, u64)>(cx, "lt:plain/iter/pair_u64", "pair_u64", "iter", lt_cfg(false, true, true, true, 64), 9);
+    lt_run::<i64>(cx, "lt:plain/merge_all/i64", "i64", "merge_all", lt_cfg(false, true, true, true, 2), 10);
+    lt_run::<u128>(cx, "lt:plain/pop/u128", "u128", "pop", lt_cfg(false, false, false, true, 64), 11);
+    lt_run::<u8>(cx, "lt:plain/merge_to_vec/u8", "u8", "merge_to_vec", lt_cfg(false, true, true, true, 64), 12);
     // a caller-supplied (reversed) comparator
     if cx.subject("lt:desc/merge_to_vec/u64", json!({"elem": "u64", "entry": "merge_to_vec", "secure": false, "stable": true, "cache": true, "simd": true, "cap": 64, "cmp": "reversed"})) {
         for (label, runs) in merge_inputs::<u64>(cx, 6, false) {
@@ -1503,6 +2027,9 @@ fn fam_setops(cx: &mut Cx) {
     setops_run::<i32>(cx, "i32");
     setops_run::<u64>(cx, "u64");
     setops_run::<Vec<u8>>(cx, "bytes");
+    setops_run::<String>(cx, "string");
+    setops_run::<(u64, u64)>(cx, "pair_u64");
+    setops_run::<u8>(cx, "u8");
 }
 
 // ------------------------------------------------------------------ family: SetOperations (k-way)
@@ -1573,8 +2100,8 @@ fn ksets_run(cx: &mut Cx, name: &str, cfg: SetOperationsConfig, many: bool) {
 
 fn fam_ksets(cx: &mut Cx) {
     let d = SetOperationsConfig::default();
-    ksets_run(cx, "ksets:bitmask", d.clone(), false);
-    ksets_run(cx, "ksets:general", SetOperationsConfig { use_bit_mask_optimization: false, ..d.clone() }, false);
+    ksets_run(cx, "ksets:bitmask", d.clone(), true);
+    ksets_run(cx, "ksets:general", SetOperationsConfig { use_bit_mask_optimization: false, ..d.clone() }, true);
     ksets_run(cx, "ksets:thr2", SetOperationsConfig { bit_mask_threshold: 2, ..d.clone() }, false);
     ksets_run(cx, "ksets:thr64", SetOperationsConfig { bit_mask_threshold: 64, ..d.clone() }, true);
 }
@@ -1795,9 +2322,10 @@ fn summarize(a: &Args, crashes: usize, fatal: &[String]) {
             bump(s, "events");
             let n_in = match op.as_str() {
                 "sort" | "sort_kv" => e["in"].as_array().map_or(0, |x| x.len()),
-                "merge" | "merge_kv" | "ksetop" => e["runs"].as_array().map_or(0, |r| r.iter().map(|x| x.as_array().map_or(0, |y| y.len())).sum()),
+                "merge" | "merge_kv" | "ksetop" | "peekpop" => e["runs"].as_array().map_or(0, |r| r.iter().map(|x| x.as_array().map_or(0, |y| y.len())).sum()),
                 "setop" => e["a"].as_array().map_or(0, |x| x.len()) + e["b"].as_array().map_or(0, |x| x.len()),
-                "unique" => e["a"].as_array().map_or(0, |x| x.len()),
+                "unique" | "argmin" => e["a"].as_array().map_or(0, |x| x.len()),
+                "compare" => e["a"].as_array().map_or(0, |x| x.len()) + e["b"].as_array().map_or(0, |x| x.len()),
                 "sort_big" | "merge_big" => e["len_in"].as_u64().unwrap_or(0) as usize,
                 _ => e["len"].as_u64().unwrap_or(0) as usize,
             };
